@@ -854,7 +854,7 @@ fn trunc(s: &str, n: usize) -> String {
 fn budget(t: Tier) -> u64 {
     match t {
         Tier::Quick => simcore::scaled(2400),
-        Tier::Thorough => simcore::scaled(150_000),
+        Tier::Thorough => simcore::scaled(60_000),
     }
 }
 
